@@ -1,5 +1,6 @@
 import Proofs.StyleImage
 import Proofs.StyleSites
+import Proofs.DrawText
 /-!
 C12 — style strings mean what git's colour language says they mean.
 
@@ -179,5 +180,92 @@ theorem only_defaults_are_rewritten :
       (r.field = "minus_style" ∨ r.field = "minus_emph_style") ∧
       "features.contains(&\"side-by-side\".to_string())" ∈ r.guards ∧ StyleRewrites.ownGuard r.field ∈ r.guards) :=
   StyleRewrites.rewrites_are_exactly
+
+/-! ### Text drawn under a decoration (`src/handlers/draw.rs`)
+
+The commit line, the file header, the hunk header and the merge-conflict / grep headers are written by the
+functions of `draw.rs`, chosen by the matching `*-decoration-style`. `Generated.DrawText.drawFns` is a data-flow
+reading of that file (every `let`, assignment, call and `.paint(…)` of every function, regenerated on every run);
+`DrawText.paintsOf` follows the `DrawFunction` arguments through it symbolically. `Draw` (DeltaModel/Sgr.lean) is
+the executable model of the same functions, tied to the source by `DrawProofs.shapes_as_modelled`. -/
+
+/-- **In the source, the header text is painted with the given text style, unmodified, whatever the
+decoration**: for each of the eight functions `get_draw_function` returns, the symbolic run reaches `paint` only
+with the function's own `text_style` argument (on `text` or `text (addendum)`, both occur) or its own
+`decoration_style` argument (on material that contains nothing of the text but its measured width); no function
+of `draw.rs` has a `mut` parameter or an assignment; the text style is the sixth `DrawFunction` argument (the only
+`Style`); `Style::paint` is `self.ansi_term_style.paint(input)`. -/
+theorem draw_functions_paint_text_with_given_style :
+    (∀ vf ∈ Generated.DrawText.drawFunctionOf,
+      DrawText.TextPaintedWithGivenStyle (DrawText.paintsOf Generated.DrawText.drawFns vf.2)) ∧
+    (∀ f ∈ Generated.DrawText.drawFns, f.mutParams = [] ∧ ∀ e ∈ f.events, DrawText.isMutate e = false) ∧
+    Generated.DrawText.drawFunctionParamTypes =
+      ["&mut dyn Write", "&str", "&str", "&str", "&Width", "Style", "ansi_term::Style"] ∧
+    Generated.DrawText.stylePaintBody = ["self", ".", "ansi_term_style", ".", "paint", "(", "input", ")"] :=
+  ⟨DrawTextProofs.text_style_reaches_paint_unmodified, DrawTextProofs.no_mutation_in_draw,
+   DrawTextProofs.draw_function_signature.1, DrawTextProofs.style_paint_is_ansi_term_paint⟩
+
+/-- What the symbolic run reports for `write_underlined` (`--file-decoration-style ul`; both arms of every `match`
+are followed, so the rule shows up above and below): the rule is painted with the decoration style, the text (both
+forms of `paint_text`) with the text style. -/
+example : (DrawText.paintsOf Generated.DrawText.drawFns "write_underlined").map (fun p => (p.inFn, p.recv)) =
+    [("write_horizontal_line", DrawText.decoStyle), ("paint_text", DrawText.textStyle),
+     ("paint_text", DrawText.textStyle), ("write_horizontal_line", DrawText.decoStyle)] := by decide +kernel
+
+/-- **Every call site of a drawing function passes a configured style together with its own decoration**
+(`DrawTextProofs.CallSiteOk`): the function `get_draw_function(<s>.decoration_style)` returned is called once, its
+text-style argument is that same `<s>` (`config.file_style`, `self.config.commit_style`, `config.hunk_header_style`,
+the merge-conflict header `style`) — or `config.null_style` for hunk-header / grep lines, whose text arrives painted —
+rooted in a parameter no `let` rebinds, and its decoration argument is the style `get_draw_function` returned. -/
+theorem draw_call_sites_pass_configured_style :
+    (∀ s ∈ Generated.DrawText.drawCallSites, DrawTextProofs.CallSiteOk s) ∧
+    Generated.DrawText.drawCallSites.map (fun s => (s.file, s.inFn)) =
+      [("commit_meta.rs", "_handle_commit_meta_header_line"),
+       ("diff_header.rs", "write_generic_diff_header_header_line"),
+       ("hunk_header.rs", "write_hunk_header_raw"),
+       ("hunk_header.rs", "write_line_of_code_with_optional_path_and_line_number"),
+       ("merge_conflict.rs", "write_diff_header")] :=
+  ⟨DrawTextProofs.call_sites_pass_configured_style, DrawTextProofs.call_sites_are⟩
+
+/-- The `Draw` model mirrors the source: same output statements in the same order in every function of `draw.rs`,
+the same variant → function table (also the one the data-flow reading starts from). -/
+theorem draw_model_mirrors_source :
+    Generated.DrawShapes.drawShapes = Draw.modelledShapes ∧
+    Generated.DrawShapes.drawFunctionOf = Draw.modelledDrawFunctions ∧
+    Generated.DrawText.drawFunctionOf = Generated.DrawShapes.drawFunctionOf :=
+  ⟨DrawProofs.shapes_as_modelled.1, DrawProofs.shapes_as_modelled.2, by decide⟩
+
+/-- **Decorated text is painted with the given style**: let the style string `str` denote `p` (not `raw`), and let
+a drawing function be called with that style as its text style (`a.textStyle = p.ansi`), any text, addendum, width,
+decoration style and box characters. Then for *every* decoration shape: the text piece is written; every other piece
+written is painted with the decoration style; the text piece is `p.ansi` painted around `text` / `text (addendum)` —
+the given style, unmodified; and the abstract terminal shows every character of it in exactly the colours and
+attributes `str` denotes (no others), ending in the default state. -/
+theorem decorated_text_painted_with_given_style (env : Env) (d : Option DStyle) (hd : defaultWf d)
+    (str : List Char) (p : Parsed) (h : denote env d str = .ok p) (s : Draw.Shape) (a : Draw.Args)
+    (hs : a.textStyle = p.ansi) (hraw : a.textRaw = p.raw) (hnr : p.raw = false)
+    (ht : Term.ESC ∉ a.text) (ha : Term.ESC ∉ a.addendum) :
+    some (Draw.textPiece a) ∈ Draw.draw s a ∧
+    (∀ q, some q ∈ Draw.draw s a → q = Draw.textPiece a ∨ ∃ t, q = Sgr.paint a.deco t) ∧
+    Draw.textPiece a = Sgr.paint p.ansi (DrawText.fullText a) ∧
+    Term.run Term.init (Draw.textPiece a) =
+      (Term.init, (DrawText.fullText a).map fun c => ⟨c, ofStyle p.ansi, none⟩) := by
+  have hp : parseAnsi env d str = .ok p := by rw [parse_eq_denote]; exact h
+  have hr : a.textRaw = false := by rw [hraw, hnr]
+  have hw : Style.wf a.textStyle := by rw [hs]; exact parseAnsi_wf env d hd str p hp
+  refine ⟨DrawTextProofs.text_piece_written s a, DrawTextProofs.other_pieces_are_decoration s a, ?_, ?_⟩
+  · rw [← hs]; exact DrawTextProofs.textPiece_eq_paint a hr
+  · rw [← hs]; exact DrawTextProofs.text_piece_shown_in_given_style a hr hw ht ha
+
+/-- `--file-style 'yellow ul'` under `--file-decoration-style 'blue ul'`: the text row carries yellow + underline,
+the rule below it is the decoration's. -/
+example :
+    let a : Draw.Args := { text := "f.rs".toList, rawText := "f.rs".toList, addendum := [], textWidth := 4, width := some 6, textStyle := { fg := some (.basic 3), underline := true }, textRaw := false, deco := { fg := some (.basic 4) }, ch := ⟨'─', '┐', '│', '┘', '┴'⟩ }
+    denote ⟨true, fun _ _ _ => 0⟩ none "yellow ul".toList = .ok { ansi := a.textStyle } ∧
+    Draw.lines (Draw.draw .underline a) =
+      ["\x1b[4;33mf.rs\x1b[0m".toList, "\x1b[34m──────\x1b[0m".toList, []] ∧
+    Term.cells Term.init (Draw.textPiece a) =
+      "f.rs".toList.map fun c => ⟨c, { fg := some (.idx 3), underline := true }, none⟩ := by
+  decide +kernel
 
 end C12
